@@ -316,8 +316,10 @@ impl std::str::FromStr for Deb822 {
                                     // ignore comments
                                     tokens.next();
                                 }
-                                Some((SyntaxKind::NEWLINE, n)) => {
-                                    current_paragraph.last_mut().unwrap().value.push_str(n);
+                                Some((SyntaxKind::NEWLINE, _)) => {
+                                    // Lines of a value are always joined by '\n',
+                                    // whatever terminated them in the input.
+                                    current_paragraph.last_mut().unwrap().value.push('\n');
                                     tokens.next();
                                     break;
                                 }
